@@ -76,6 +76,10 @@ def run(ctx):
     # ---- (3) mutation / truncation sweep of repository inputs
     mut = mutation_sweep(ctx)
     cov["other_parsers"] = other_parsers_sweep(ctx)
+    # ---- (4) DataParser (gama-g3 input and results, adj-input-data): control table extracted from the sources, model checked,
+    #          every transition replayed (spec/G3Parser.tla)
+    import g3parser
+    cov.update(g3parser.run(ctx, 2500 if ctx.quick else 0))
     cov.update({"states": r.distinct, "transitions": r.generated, "traces_validated_against_impl": len(docs),
                 "documents_accepted_by_model": nacc, "documents_rejected_by_model": nrej, "mutation_sweep": mut,
                 "exhaustive": True, "model_constants": consts})
